@@ -482,6 +482,10 @@ func (fi *FileInfo) getTrailer() (Dict, error) {
 				if ok && stm.Dict["Root"] != nil {
 					return stm.Dict, nil
 				}
+			} else if isSourceFailure(err) {
+				// a failing byte source is not a reason to fall back to
+				// an older revision
+				return nil, err
 			}
 		}
 
@@ -490,11 +494,21 @@ func (fi *FileInfo) getTrailer() (Dict, error) {
 		if err == nil {
 			return trailer, nil
 		}
+		if sect.TrailerPos != 0 && isSourceFailure(err) {
+			return nil, err
+		}
 
 		// TODO(voss): method 3: Try to collect all the pieces to build
 		// our own trailer dictionary.
 	}
 	return nil, errors.New("no trailer found")
+}
+
+// isSourceFailure reports whether err is a failure of the byte source, as
+// opposed to malformed or truncated content (the same classification
+// checkObjects uses).
+func isSourceFailure(err error) bool {
+	return IsReadError(err) && err != io.EOF && err != io.ErrUnexpectedEOF
 }
 
 func (fi *FileInfo) readTrailer(sect *FileSection) (Dict, error) {
